@@ -100,6 +100,13 @@ class TStream(T):
         return "stream"
 
 
+class TFilePtr(T):
+    """read/write file object opened on the file that the owner's `_bloom` mmap maps"""
+
+    def __repr__(self):
+        return "fileptr"
+
+
 ARRAY_RANGES = {
     "B": (0, 255),
     "I": (0, 2**32 - 1),
@@ -150,14 +157,20 @@ def parse_type(s) -> T:
         return TFunc("hashfunc")
     if s in ("bytesfunc", "intfunc"):
         return TFunc(s)
-    if s == "any":
-        return TAny()
+    if s in ("any", "foreign"):
+        t = TAny()
+        t.foreign = (s == "foreign")
+        return t
     if s == "map":
         return TMap()
     if s == "stream":
         return TStream()
+    if s == "fileptr":
+        return TFilePtr()
     if s == "bytes":
         return TSeq(TInt(0, 255), "bytes")
+    if s == "mmap":
+        return TSeq(TInt(0, 255), "mmap")
     if s.startswith("array:"):
         tc = s.split(":")[1]
         lo, hi = ARRAY_RANGES[tc]
@@ -321,6 +334,18 @@ class VStream(V):
         self.sid = sid
 
 
+class VFilePtr(V):
+    """isnone: the slot holds None; pos: file position; closed; pending write (ppos, plen, parr): bytes handed
+    to write() that are still in the user-space buffer (not yet in the file) until flush()"""
+
+    def __init__(self, isnone, pos, closed, haspend, ppos, plen, parr):
+        self.isnone, self.pos, self.closed = isnone, pos, closed
+        self.haspend, self.ppos, self.plen, self.parr = haspend, ppos, plen, parr
+
+    def terms(self):
+        return [self.isnone, self.pos, self.closed, self.haspend, self.ppos, self.plen, self.parr]
+
+
 class VClass(V):
     def __init__(self, name):
         self.name = name
@@ -369,7 +394,7 @@ class Flattener:
             return [z3.BoolSort()]
         if isinstance(t, TReal):
             return [z3.RealSort()]
-        if isinstance(t, TNone):
+        if isinstance(t, (TNone, TAny, TStream)):
             return []
         if isinstance(t, TSeq):
             return [arr_sort(s) for s in self.sorts(t.elem)] + [z3.IntSort()]
@@ -387,6 +412,9 @@ class Flattener:
             return out
         if isinstance(t, TMap):
             return [arr_sort(z3.BoolSort()), arr_sort(z3.IntSort()), z3.IntSort()]
+        if isinstance(t, TFilePtr):
+            return [z3.BoolSort(), z3.IntSort(), z3.BoolSort(), z3.BoolSort(), z3.IntSort(), z3.IntSort(),
+                    arr_sort(z3.IntSort())]
         raise TypeError(f"cannot flatten type {t}")
 
     def pack(self, t: T, v: V):
@@ -402,7 +430,7 @@ class Flattener:
             if isinstance(v, VInt):
                 return [z3.ToReal(v.t)]
             return [v.t]
-        if isinstance(t, TNone):
+        if isinstance(t, (TNone, TAny, TStream)):
             return []
         if isinstance(t, TSeq):
             if not isinstance(v, VSeq):
@@ -428,6 +456,11 @@ class Flattener:
             return out
         if isinstance(t, TMap):
             return [v.dom, v.val, v.card]
+        if isinstance(t, TFilePtr):
+            if isinstance(v, VNone):
+                d = self.default_terms(t)
+                return [z3.BoolVal(True)] + d[1:]
+            return v.terms()
         raise TypeError(f"cannot pack type {t}")
 
     def unpack(self, t: T, terms):
@@ -448,6 +481,8 @@ class Flattener:
             return VReal(terms[0]), terms[1:]
         if isinstance(t, TNone):
             return VNone(), terms
+        if isinstance(t, (TAny, TStream)):
+            return VOpaque("any"), terms
         if isinstance(t, TSeq):
             n = len(self.sorts(t.elem))
             return VSeq(terms[:n], terms[n], t.elem, t.kind), terms[n + 1:]
@@ -468,6 +503,8 @@ class Flattener:
             return VTuple(items), terms
         if isinstance(t, TMap):
             return VMap(terms[0], terms[1], terms[2]), terms[3:]
+        if isinstance(t, TFilePtr):
+            return VFilePtr(*terms[:7]), terms[7:]
         raise TypeError(f"cannot unpack type {t}")
 
     def default_terms(self, t):
